@@ -20,10 +20,37 @@ import (
 	"chainguard.dev/apko/pkg/verifapi"
 )
 
-var confineCmdKinds = []string{"lock-baseimage", "lock-baseimage-nocache", "lbuild-nosuffix", "lbuild-nosuffix-nocache", "lbuild-plain"}
+var confineCmdKinds = []string{"lock-baseimage", "lock-baseimage-nocache", "lbuild-nosuffix", "lbuild-nosuffix-nocache", "lbuild-plain",
+	// hostile lock-file fields (name, version, architecture, checksum), with the recorded URLs or suffix-less ones
+	"lbuild-hostile", "lbuild-hostile-nosuffix",
+	// a hostile architecture string (configuration `archs:` / --arch): per-architecture working directory, layer tarball, SBOM file
+	"lock-arch", "build-arch"}
+
+var confineHostileArchs = []string{"../../w/canary2/evil", "../../../w/canary2/evil", "../../../../w/canary2/evil", "../evil", "../../evil", "../../../evil", "../../../../evil", "/{T}/w/r/canary/evil", "..", "a/b", "x86_64/../../../../w/canary2/evil"}
+
+func confineGenCmdKind(r *Rng, kind string) confineCase {
+	c := confineCase{Kind: "cmd", Hdr: kind}
+	switch {
+	case strings.HasPrefix(kind, "lbuild-hostile"):
+		// name, version, architecture, checksum ("" = as locked)
+		c.Names = []string{Pick(r, confineHostileFields), "", "", ""}
+		if r.Chance(40) {
+			c.Names[1] = Pick(r, []string{"../../../../evil", "/../..", "1.0/../../../evil"})
+		}
+		if r.Chance(15) {
+			c.Names[2] = Pick(r, []string{"../../../evil", ".."})
+		}
+		if r.Chance(15) {
+			c.Names[3] = Pick(r, confinePkgChecksums)
+		}
+	case strings.HasSuffix(kind, "-arch"):
+		c.Value = Pick(r, confineHostileArchs)
+	}
+	return c
+}
 
 func confineGenCmd(r *Rng) confineCase {
-	return confineCase{Kind: "cmd", Hdr: Pick(r, confineCmdKinds)}
+	return confineGenCmdKind(r, Pick(r, confineCmdKinds))
 }
 
 func confineRunCmd(c confineCase) []Step {
@@ -55,6 +82,25 @@ func confineRunCmd(c confineCase) []Step {
 			cfg := filepath.Join(t.repo, "image_on_top.apko.yaml")
 			confineMust(os.WriteFile(cfg, []byte(yaml), 0o644))
 			cerr = verifapi.LockCmd(ctx, filepath.Join(t.out, "apko.lock.json"), types.ParseArchitectures([]string{"amd64", "arm64"}), cacheOpt([]build.Option{build.WithConfig(cfg, []string{})}))
+		case strings.HasSuffix(c.Hdr, "-arch"):
+			arch := t.subst(c.Value)
+			pk := []SPkg{{Name: "a", Version: "1.0-r0", Origin: "a", Files: []SFile{{Path: "usr", Type: "dir", Mode: 0o755}, {Path: "usr/a", Type: "file", Mode: 0o644, Content: "a"}}}}
+			repo := BuildSynthRepo(pk, []string{arch})
+			var ic types.ImageConfiguration
+			ic.Contents.Packages = []string{"a"}
+			ic.Contents.RuntimeRepositories = []string{"https://repo.test"}
+			ic.Contents.Keyring = []string{"https://repo.test/keys/" + synthKeyName}
+			archs := types.ParseArchitectures([]string{arch})
+			ic.Archs = archs
+			tr := &SynthTransport{Repo: repo}
+			base := []build.Option{build.WithImageConfiguration(ic), build.WithTransport(tr), build.WithTempDir(t.tmp)}
+			if c.Hdr == "lock-arch" {
+				cerr = verifapi.LockCmd(ctx, filepath.Join(t.out, "apko.lock.json"), archs, cacheOpt(append(base, build.WithSBOMFormats(nil))))
+				break
+			}
+			img := filepath.Join(t.out, "img")
+			confineMust(os.MkdirAll(img, 0o755))
+			cerr = verifapi.BuildCmd(ctx, "verif.test/img:latest", img, archs, nil, true, t.out, cacheOpt(append(base, build.WithSBOMFormats([]string{"spdx"})))...)
 		default:
 			pk := []SPkg{{Name: "a", Version: "1.0-r0", Origin: "a", Files: []SFile{{Path: "usr", Type: "dir", Mode: 0o755}, {Path: "usr/a", Type: "file", Mode: 0o644, Content: "a"}}},
 				{Name: "b", Version: "2.0-r1", Origin: "b", Deps: []string{"a"}, Files: []SFile{{Path: "usr", Type: "dir", Mode: 0o755}, {Path: "usr/b", Type: "file", Mode: 0o644, Content: "b"}}}}
@@ -69,6 +115,28 @@ func confineRunCmd(c confineCase) []Step {
 			base := []build.Option{build.WithImageConfiguration(ic), build.WithTransport(tr), build.WithTempDir(t.tmp), build.WithSBOMFormats(nil)}
 			if cerr = verifapi.LockCmd(ctx, lockPath, archs, cacheOpt(append([]build.Option{}, base...))); cerr != nil {
 				break
+			}
+			if strings.HasPrefix(c.Hdr, "lbuild-hostile") {
+				// what the lock file says about a package is not vetted by anything: name, version, architecture, checksum
+				var m map[string]any
+				b, _ := os.ReadFile(lockPath)
+				confineMust(json.Unmarshal(b, &m))
+				for i, x := range m["contents"].(map[string]any)["packages"].([]any) {
+					e := x.(map[string]any)
+					for j, k := range []string{"name", "version", "architecture", "checksum"} {
+						if j < len(c.Names) && c.Names[j] != "" {
+							e[k] = t.subst(c.Names[j])
+						}
+					}
+					if strings.HasSuffix(c.Hdr, "-nosuffix") {
+						u := e["url"].(string)
+						ep := fmt.Sprintf("dl/%d", i)
+						repo.Files[ep] = repo.Files[strings.TrimPrefix(u, "https://repo.test/")]
+						e["url"] = "https://repo.test/" + ep
+					}
+				}
+				b, _ = json.Marshal(m)
+				confineMust(os.WriteFile(lockPath, b, 0o644))
 			}
 			if strings.HasPrefix(c.Hdr, "lbuild-nosuffix") {
 				// the same packages behind download endpoints whose URLs do not end in .apk
@@ -95,7 +163,13 @@ func confineRunCmd(c confineCase) []Step {
 	})
 	os.Chdir(old)
 	d := confineDiff(before, t.snapshot(des))
-	return []Step{confineEffectStep("cmd", false, d, fmt.Sprintf("%s from a working directory that is none of the given places => %s%s", c.Hdr, confineErrClass(cerr), confineErrText(cerr)), []string{"cmd:" + c.Hdr, "cmd-result:" + confineErrClass(cerr)})}
+	if strings.HasSuffix(c.Hdr, "-arch") {
+		// the class of an escape through the architecture string is decided by the driver (arch_paths_within_partial's hypothesis)
+		st := confineEffectStep("cmd-arch", false, d, fmt.Sprintf("%s%s from a working directory that is none of the given places => %s%s", c.Hdr, confineCmdArgs(c), confineErrClass(cerr), confineErrText(cerr)), []string{"cmd:" + c.Hdr, "cmd-result:" + confineErrClass(cerr)})
+		st.Line = "cf.archeffect\tcmd-arch\t" + hx(confineModelStr(c.Value)) + "\t" + strings.Join(d, ",")
+		return []Step{st}
+	}
+	return []Step{confineEffectStep("cmd", false, d, fmt.Sprintf("%s%s from a working directory that is none of the given places => %s%s", c.Hdr, confineCmdArgs(c), confineErrClass(cerr), confineErrText(cerr)), []string{"cmd:" + c.Hdr, "cmd-result:" + confineErrClass(cerr)})}
 }
 
 func confineErrText(err error) string {
@@ -103,4 +177,14 @@ func confineErrText(err error) string {
 		return ""
 	}
 	return " (" + truncStr(strings.ReplaceAll(err.Error(), "\n", " "), 200) + ")"
+}
+
+func confineCmdArgs(c confineCase) string {
+	switch {
+	case len(c.Names) > 0:
+		return fmt.Sprintf(" (lock entries: name=%q version=%q architecture=%q checksum=%q)", c.Names[0], c.Names[1], c.Names[2], c.Names[3])
+	case c.Value != "":
+		return fmt.Sprintf(" (architecture %q)", c.Value)
+	}
+	return ""
 }
